@@ -159,6 +159,11 @@ func mutationsOfA(doc any, restricted bool) []mutation {
 			}
 			out = append(out, mutation{Path: p, Replace: r.v, Name: "=" + r.name})
 		}
+		// an array one element longer than written (a point with three coordinates, a third axis, a repeated tile matrix):
+		// fixed-size targets of the decoder must reject what does not fit, not panic
+		if arr, ok := cur.([]any); ok && len(arr) > 0 && !restricted {
+			out = append(out, mutation{Path: p, Replace: append(append([]any{}, arr...), clone(arr[len(arr)-1])), Name: "=array+last"})
+		}
 		// tile matrix ids are integers written as strings: other spellings of the same integer (leading zero,
 		// explicit sign) are accepted documents too and must survive the round trip as written
 		if len(p) == 3 && !restricted {
@@ -306,6 +311,28 @@ func mustReject(doc any) string {
 		if co, ok := tm["cornerOfOrigin"]; ok {
 			if _, isStr := co.(string); !isStr {
 				return "cornerOfOrigin of wrong type"
+			}
+		}
+	}
+	// the optional bounding box: an object whose corners are lists of numbers
+	if bb, ok := m["boundingBox"]; ok && bb != nil {
+		bm, ok := bb.(map[string]any)
+		if !ok {
+			return "boundingBox of wrong type"
+		}
+		for _, k := range []string{"lowerLeft", "upperRight"} {
+			c, ok := bm[k]
+			if !ok {
+				continue // "missing corner" is not one of the categories the property names
+			}
+			cl, ok := c.([]any)
+			if !ok {
+				return "boundingBox." + k + " of wrong type"
+			}
+			for _, x := range cl {
+				if _, isN := isNum(x); !isN {
+					return fmt.Sprintf("boundingBox.%s coordinate of wrong type (%s)", k, jsonType(x))
+				}
 			}
 		}
 	}
